@@ -98,7 +98,7 @@ class C04(Prop):
     id = 'C04'
     rule = ('events with 1-4 handlers of distinct priority drawn from {return value, return None, raise, generator yielding '
             'k values/None, generator raising after k yields}, flags success/failure/notify/success_channels, handlers firing '
-            'nested events (depth<=2), 1-3 root events in flight, under tick() and run(); non-trivial = some event combines '
+            'nested events (depth<=2), 1-3 root events in flight, optionally an `exception` handler that itself raises while reporting, under tick() and run(); non-trivial = some event combines '
             '>=2 different handler shapes including a raiser or a generator; distinct = distinct spec hash')
     assumptions = ('result order is compared with the order in which the harness handlers actually produced values (their own log)',
                    'handler results that are lists or Value objects are not generated (outside the quantifier / API ambiguity)',
